@@ -168,6 +168,10 @@ func (r *rwRT) ruleMemo() {
 				pv, pk := paramDeps(mu.Value), paramDeps(mu.Key)
 				var missing []string
 				for p := range pv {
+					// the receiver is the long-lived object the table belongs to, not an input of this call
+					if recv := f.Signature.Recv(); recv != nil && len(f.Params) > 0 && p == f.Params[0] {
+						continue
+					}
 					if !pk[p] {
 						missing = append(missing, p.Name())
 					}
